@@ -8,7 +8,11 @@ package main
 
 import (
 	"bytes"
+	"crypto"
+	"crypto/ecdsa"
+	"crypto/ed25519"
 	"crypto/rand"
+	"crypto/rsa"
 
 	"verif/harness/cborx"
 
@@ -26,8 +30,9 @@ type tamperEv struct {
 	ProtStd string          `json:"protStd"` // algorithm whose standard protected-header bytes these are | "none" | "alt"
 	DecOK   bool            `json:"decOK"`
 	Claims  string          `json:"claims"`
-	Ver     map[string]bool `json:"ver"`   // key id -> verification succeeded
-	Bound   bool            `json:"bound"` // the claims exposed are the decoding of the payload bytes that were presented
+	Ver     map[string]bool `json:"ver"`    // key id -> verification succeeded
+	BadVer  map[string]bool `json:"badVer"` // malformed / wrong-type key -> verification SUCCEEDED (an error or a panic is "did not")
+	Bound   bool            `json:"bound"`  // the claims exposed are the decoding of the payload bytes that were presented
 	Pan     bool            `json:"panicked"`
 }
 
@@ -72,7 +77,7 @@ func init() {
 		b := 0
 		bykind := map[string]int{}
 		present := func(kind, alg string, tok []byte) {
-			ev := tamperEv{B: b, Op: "Tamper", Kind: kind, Alg: alg, TI: w.absToken(tok), Ver: map[string]bool{"k1": false, "k2": false}, Claims: "nil"}
+			ev := tamperEv{B: b, Op: "Tamper", Kind: kind, Alg: alg, TI: w.absToken(tok), Ver: map[string]bool{"k1": false, "k2": false}, BadVer: map[string]bool{}, Claims: "nil"}
 			ev.ProtStd = w.protStd(rawProtected(tok))
 			var e *psatoken.Evidence
 			ev.Pan = safely(func() {
@@ -91,6 +96,32 @@ func init() {
 					}
 				}
 			})
+			// keys that are no public key of the algorithm at all: wrong length, nil, another key type. Whatever the
+			// library does with them (an error; go-cose / crypto may even panic), it must not report success.
+			if ev.DecOK && (kind == "honest" || b%40 == 0) {
+				good, _ := w.kr[alg]["k1"].pub.(ed25519.PublicKey)
+				bad := map[string]crypto.PublicKey{
+					"nil": nil, "ed25519-nil": ed25519.PublicKey(nil), "ed25519-empty": ed25519.PublicKey{},
+					"ed25519-31": ed25519.PublicKey(make([]byte, 31)), "ed25519-33": ed25519.PublicKey(make([]byte, 33)),
+					"ecdsa-nil": (*ecdsa.PublicKey)(nil), "rsa-nil": (*rsa.PublicKey)(nil), "ecdsa-zero": &ecdsa.PublicKey{},
+					"rsa-zero": &rsa.PublicKey{}, "bytes": []byte{1, 2, 3}, "string": "key",
+				}
+				if good != nil {
+					bad["ed25519-trunc"] = good[:31]
+					bad["ed25519-ext"] = append(append(ed25519.PublicKey{}, good...), 0)
+				}
+				for _, other := range algNames { // a well-formed key of another algorithm family
+					if other[:2] != alg[:2] {
+						bad["other:"+other] = w.kr[other]["k1"].pub
+						break
+					}
+				}
+				for name, pk := range bad {
+					okv := false
+					safely(func() { okv = e.Verify(pk) == nil })
+					ev.BadVer[name] = okv
+				}
+			}
 			t.Emit(ev, true, true)
 			b++
 			bykind[kind]++
